@@ -5112,6 +5112,7 @@ class Entity(object, metaclass=EntityMeta):
             wbits = obj._wbits_
             get_val = obj._vals_.get
             objects_to_save = cache.objects_to_save
+            queued = bool(avdict) and wbits is not None and status != 'modified'  # this call puts obj into objects_to_save
             if avdict:
                 if any(attr not in obj._vals_ and attr.reverse and obj._bits_[attr] for attr in avdict):
                     obj._load_()
@@ -5146,7 +5147,7 @@ class Entity(object, metaclass=EntityMeta):
             def undo_func():
                 obj._status_ = status
                 obj._wbits_ = wbits
-                if status in ('loaded', 'inserted', 'updated'):
+                if queued:
                     assert objects_to_save
                     obj2 = objects_to_save.pop()
                     assert obj2 is obj and obj._save_pos_ == len(objects_to_save)
@@ -5154,6 +5155,7 @@ class Entity(object, metaclass=EntityMeta):
                 for cache_index, old_key, new_key in undo:
                     if new_key is not None: del cache_index[new_key]
                     if old_key is not None: cache_index[old_key] = obj
+            undo_funcs.append(undo_func)
             try:
                 for attr in obj._simple_keys_:
                     if attr not in avdict: continue
@@ -5175,7 +5177,7 @@ class Entity(object, metaclass=EntityMeta):
                 for attr, new_val in collection_avdict.items():
                     attr.__set__(obj, new_val, undo_funcs)
             except:
-                for undo_func in undo_funcs: undo_func()
+                for undo_func in reversed(undo_funcs): undo_func()
                 raise
         obj._vals_.update(avdict)
     def _keyargs_to_avdicts_(obj, kwargs):
